@@ -69,9 +69,9 @@ func IsCall(i ssa.Instruction, names ...string) bool {
 // Args returns the call arguments with the receiver (if any) first.
 func Args(c *ssa.CallCommon) []ssa.Value {
 	if c.IsInvoke() {
-		return append([]ssa.Value{c.Value}, c.Args...)
+		return append([]ssa.Value{c.Value}, PArgs(c)...)
 	}
-	return c.Args
+	return PArgs(c)
 }
 
 // StaticFunc returns the *ssa.Function called, for static calls and closures.
